@@ -20,12 +20,12 @@ def run(rep, tier, seed):
     from harness.c09 import load_log_all
     wd = workdir(pid, "shapes", wipe=True)
     shapes = 0
-    for cfg in (["MC_Shapes.cfg"] if tier == "quick" else ["MC_Shapes.cfg", "MC_Shapes6.cfg"]):
+    for cfg in (["MC_Shapes.cfg", "MC_Fields.cfg"] if tier == "quick" else ["MC_Shapes.cfg", "MC_Shapes6.cfg", "MC_Fields.cfg"]):
         out = os.path.join(wd, "shapes.out")
-        r = run_tlc("MC_Shapes", cfg=os.path.join(SPEC, cfg), stdout_path=out, timeout=2400)
+        r = run_tlc(cfg.split(".")[0].rstrip("6"), cfg=os.path.join(SPEC, cfg), stdout_path=out, timeout=2400)
         if not r.ok or r.invariant_violated:
-            raise MachineryError(f"{cfg}: the tree encoding is wrong:\n" + r.out[-1500:])
-        rep.add_tlc(r, cfg + " (all pairs of ordered labelled trees)")
+            raise MachineryError(f"{cfg}: the encoding / oracle is wrong:\n" + r.out[-1500:])
+        rep.add_tlc(r, cfg + (" (all pairs of ordered labelled trees)" if "Shapes" in cfg else " (all pairs of nodes over adversarial field universes, alone and as only children)"))
         c12.G["SH"] = load_log_all(out)["E"]
         os.remove(out)
         if not any(e["same"] for e in c12.G["SH"]) or all(e["same"] for e in c12.G["SH"]):
@@ -43,6 +43,6 @@ def run(rep, tier, seed):
     rep.cov["evaluations"] = npairs
     rep.cov["distinct_nontrivial"] = nS
     rep.cov["rule"] = ("every state of MC_Copy (template, copy, after one/two edits anywhere) x every ordered pair of distinct nodes; "
-                       "plus every pair of ordered trees with <= 4 nodes over two names (MC_Shapes; thorough: <= 6 nodes over one name); TLC's TreeEq is the oracle; symmetry follows because both orders are compared with a symmetric operator")
+                       "plus every pair of ordered trees with <= 4 nodes over two names (MC_Shapes; thorough: <= 6 nodes over one name) and every pair of nodes over adversarial per-field universes (MC_Fields: 82,944 pairs); TLC's TreeEq is the oracle; symmetry follows because both orders are compared with a symmetric operator")
     rep.cov["exhaustive"] = True
     rep.assumptions += ["is_equal is called on distinct node objects only (the statement speaks of distinct trees)"]
